@@ -54,19 +54,81 @@ def sign_of(expr, facts):
     return "+" if sn == sd else "-"
 
 
+def result_sites(fn):
+    """(site, value expression) of every result of the kernel: its return statements, or - single-exit form - the assignments
+    to the local variable that the only return statement hands back."""
+    rets = [n for n in walk(fn["body"]) if n.get("k") == "ReturnStmt" and isinstance(n.get("value"), dict)]
+    if len(rets) == 1:
+        v = strip(rets[0]["value"])
+        while v.get("k") in ("CXXConstructExpr", "MaterializeTemporaryExpr", "CXXBindTemporaryExpr") and len(v.get("c", [])) == 1:
+            v = strip(v["c"][0])
+        if v.get("k") == "DeclRefExpr" and v["ref"].get("dk") == "Var":
+            did = v["ref"]["did"]
+            sites = []
+            for n in walk(fn["body"]):
+                if n.get("k") in ("BinaryOperator", "CXXOperatorCallExpr") and n.get("op") == "=":
+                    lhs = strip(n["c"][0] if n["k"] == "BinaryOperator" else n["c"][1])
+                    if lhs.get("k") == "DeclRefExpr" and lhs["ref"].get("did") == did:
+                        sites.append((n, n["c"][1] if n["k"] == "BinaryOperator" else n["c"][2]))
+            if len(sites) >= 2:
+                return sites
+    return [(r, r["value"]) for r in rets]
+
+
+def _norm_guard(fn, cond, pol):
+    """condition with leading negations folded into the polarity and stable boolean locals replaced by their initialisers"""
+    from ..model import stable_locals
+    st = stable_locals(fn)
+    c = strip(cond)
+    for _ in range(6):
+        if c.get("k") == "UnaryOperator" and c.get("op") == "!":
+            pol = not pol
+            c = strip(c["c"][0])
+            continue
+        if c.get("k") == "DeclRefExpr" and c["ref"].get("dk") == "Var" and c["ref"].get("did") in st:
+            c = strip(st[c["ref"]["did"]])
+            continue
+        if c.get("k") == "ConditionalOperator" and strip(c["c"][2]).get("k") == "CXXBoolLiteralExpr" and strip(c["c"][2]).get("v") is False:
+            # x ? y : false  ==  x && y
+            c = {"k": "BinaryOperator", "op": "&&", "c": [c["c"][0], c["c"][1]], "t": "bool", "l": c.get("l")}
+            continue
+        break
+    return c, pol
+
+
+def _conj(fn, c):
+    """comparison leaves of a conjunction (through stable boolean locals); None if the condition is not a pure conjunction"""
+    c, pol = _norm_guard(fn, c, True)
+    if not pol:
+        return None
+    if c.get("k") == "BinaryOperator" and c.get("op") == "&&":
+        l, r = _conj(fn, c["c"][0]), _conj(fn, c["c"][1])
+        return None if l is None or r is None else l + r
+    if c.get("k") == "BinaryOperator" and c.get("op") in ("<=", ">=", "<", ">"):
+        return [c]
+    return None
+
+
 def guard_facts(ev, fi, node):
-    """Sign facts stated by the dominating if-conditions that hold (polarity true) as conjunctions of
-    comparisons with zero. Returns (facts, substitutions for compound left-hand sides, applicable?)."""
+    """Sign facts stated by the dominating if-conditions: a condition that holds and is a conjunction of comparisons with zero
+    gives one fact per conjunct; a single comparison that does NOT hold gives the opposite (strict) fact. Returns (facts,
+    substitutions for compound left-hand sides, applicable?); applicable is False as soon as one dominating condition cannot be
+    interpreted (e.g. a flag assigned in several places): the sign analysis then has nothing sound to start from."""
     facts, subs, applicable = {}, [], False
     k = 0
+    fn = ev.fn
     for cond, pol in fi.guards(node):
-        if not pol:
-            continue
-        ops = {y.get("op") for y in walk(cond) if y.get("k") == "BinaryOperator" and y.get("op") in ("&&", "||")}
-        if not ops <= {"&&"}:
+        c, pol = _norm_guard(fn, cond, pol)
+        leaves = _conj(fn, c) if pol else None
+        if leaves is None and not pol and c.get("k") == "BinaryOperator" and c.get("op") in ("<=", ">=", "<", ">"):
+            inv = {"<=": ">", ">=": "<", "<": ">=", ">": "<="}[c["op"]]
+            leaves = [dict(c, op=inv)]
+        if leaves is None:
+            if pol and not (c.get("k") == "BinaryOperator" and c.get("op") in ("&&", "||", "<=", ">=", "<", ">", "==", "!=")):
+                return {}, [], False     # an opaque condition holds on this path: not interpretable
             continue
         applicable = True
-        for x in walk(cond):
+        for x in leaves:
             if x.get("k") == "BinaryOperator" and x.get("op") in ("<=", ">=", "<", ">"):
                 l, r = x["c"][0], strip(x["c"][1])
                 if r.get("k") in ("FloatingLiteral", "IntegerLiteral") and float(r["v"]) == 0.0:
@@ -86,7 +148,7 @@ def guard_facts(ev, fi, node):
 
 
 def declare(rep):
-    rep.rule("C05.nonneg-under-guard", "for a return inside a region test that is a conjunction of sign conditions, the returned components are >= 0 by sign analysis of those conditions", floor=6)
+    rep.rule("C05.nonneg-under-guard", "for a return inside a region test that is a conjunction of sign conditions, the returned components are >= 0 by sign analysis of those conditions", floor=4)
     rep.rule("C05.bary-sum", "the returned barycentric components sum to 1 (identity)", floor=7)
     rep.rule("C05.distance-consistent", "the returned squared distance equals |p - (b0*a+b1*b+b2*c)|^2 for the returned components (identity)", floor=7)
     rep.rule("C05.translation", "returned distance and components are invariant under a common translation of p,a,b,c", floor=7)
@@ -101,14 +163,14 @@ def run(rep, prog, tier):
     if not rep.rules:
         declare(rep)
     fn = prog.fn("contact_model_abstract::compute_node_triangle_distance")
-    rets = [n for n in walk(fn["body"]) if n.get("k") == "ReturnStmt" and isinstance(n.get("value"), dict)]
+    rets = result_sites(fn)
     if len(fn["params"]) != 4:
         raise AnalysisBroken("kernel signature changed")
-    for i, r in enumerate(rets):
+    for i, (r, rvalue) in enumerate(rets):
         tag = "return #%d" % (i + 1)
         try:
             ev = S.SymEval(prog, fn, lazy_scalars=True)
-            v = ev.ev(r["value"])
+            v = ev.ev(rvalue)
             if not (isinstance(v, S.Tup) and len(v.items) == 2 and isinstance(v.items[1], (S.Rec, S.Lazy))):
                 raise S.Decline("return value is not a (scalar, vec3) pair")
             d2, b = v.items[0], ev.record_of(v.items[1])
@@ -127,7 +189,7 @@ def run(rep, prog, tier):
             else:
                 rep.violation("C05.distance-consistent", prog, fn, r, "%s distance != distance to the designated point" % tag,
                               "%s: the returned squared distance %s is not the squared distance from p to the point designated by the returned barycentric coordinates (%s)"
-                              % (tag, short(strip(r["value"]).get("c", [r["value"]])[0], 60), getattr(ev, "last_witness", "")))
+                              % (tag, short(strip(rvalue).get("c", [rvalue])[0], 60), getattr(ev, "last_witness", "")))
             # non-negativity by sign abstract interpretation under the dominating region test
             fi = prog.index(fn)
             facts, gsubs, applicable = guard_facts(ev, fi, r)
